@@ -10,7 +10,11 @@ All == ndJsonDeserialize(IOEnv.OBS_FILE)
 \* then the order within each subchannel - open, everything written, close)
 PerSubPrefix(o) == /\ Len(o.perSub.delivered) = Len(o.perSub.issued)
                    /\ \A i \in 1..Len(o.perSub.issued) : IsPrefix(o.perSub.delivered[i], o.perSub.issued[i])
-P_InOrderOnce(o) == IF o.kind = "l4" /\ o.lateListen THEN PerSubPrefix(o) ELSE IsPrefix(o.delivered, o.issued)
+\* the other direction at the same time (runs in which the receiving application answers each piece of data): what comes back
+\* on a subchannel is a prefix of the answers to what was written on it - nothing twice, nothing out of order, nothing altered
+EchoesPrefix(o) == \A i \in 1..Len(o.echoes) : IsPrefix(o.echoes[i].got, o.echoes[i].expected)
+P_InOrderOnce(o) == /\ IF o.kind = "l4" /\ o.lateListen THEN PerSubPrefix(o) ELSE IsPrefix(o.delivered, o.issued)
+                    /\ (o.kind = "l4" => EchoesPrefix(o) /\ o.echoErrors = <<>>)
 P_Goal(o) == o.goal => /\ IF o.kind = "l4" /\ o.lateListen THEN o.perSub.delivered = o.perSub.issued ELSE o.delivered = o.issued
                        \* ... and each close has come back: the opener's application saw connectionLost for every subchannel it closed
                        /\ (o.kind = "l4" => o.lostAtOpener = o.closedByOpener)
